@@ -471,7 +471,8 @@ def compare_models(A, B, ck=None, label="", strict=False, approx_tol=None):
             d = abs(o["value"] - u["value"])
             if ang:
                 d = abs((o["value"] - u["value"] + math.pi) % (2 * math.pi) - math.pi)
-                dms = bool(u.get("dms")) and not strict
+                # an export with angular="360" writes every angular value in degrees-minutes-seconds
+                dms = (bool(u.get("dms")) or pb["angular"] == "360") and not strict
                 tol = 1e-13 if strict else (TOL_ANG_DMS if dms else TOL_ANG)
                 name = "angular value (sexagesimal export)" if dms else "angular value"
             else:
@@ -1026,7 +1027,13 @@ def check_chain(ck, case, res, seed, tier):
             continue
         A = netlevel.physical_result(R, fr)
         B = netlevel.physical_result(g1.xml, fr)
-        sfx = ":approx-replaced-by-observed-coordinates" if overridden else ""
+        # gama refreshes the reduction of a slope distance / zenith angle for instrument and target heights only
+        # when it changes by more than 0.1 cc / 0.001 mm: after iterations the final adjustment of run k may use
+        # reductions computed from older approximate coordinates, the re-adjustment computes them afresh
+        stale = it_k > 0 and any(o["type"] in ("s-distance", "z-angle") and (o["from_dh"] or o["to_dh"])
+                                 for c in P[k]["clusters"] for o in c["obs"])
+        sfx = ":approx-replaced-by-observed-coordinates" if overridden else (":stale-dh-reduction" if stale else "")
+        sfx_txt = " (approx. replaced by observed coordinates)" if overridden else (" (stale dh reductions)" if stale else "")
         seen_c = set()
         for key, msg, okey in netlevel.compare_physical(A, B):
             if key in seen_c:
@@ -1037,8 +1044,8 @@ def check_chain(ck, case, res, seed, tier):
             dB = B["points"].get(pid, {})
             for c in dA:
                 if c in dB:
-                    ck.ratio("adjusted coordinates round k vs k+1 [m]" + (" (approx. replaced by observed coordinates)" if overridden else ""), abs(dA[c] - dB[c]), 1e-7)
-        ck.ratio("sum of squares round k vs k+1 (relative)" + (" (approx. replaced by observed coordinates)" if overridden else ""), _relerr(A["ss"], B["ss"]), 1.1e-6)
+                    ck.ratio("adjusted coordinates round k vs k+1 [m]" + sfx_txt, abs(dA[c] - dB[c]), 1e-7)
+        ck.ratio("sum of squares round k vs k+1 (relative)" + sfx_txt, _relerr(A["ss"], B["ss"]), 1.1e-6)
         ck.count("adjustment pairs compared")
         ck.count("fields compared between adjustments", len(A["points"]) * 3 + sum(len(v) for v in A["obs"].values()) + len(A["cov"]))
         converged = it_k < MAX_ITER
